@@ -411,6 +411,8 @@ def classify(ops, ans, sp, states, k):
         arg = ops[k].split(" ", 1)[1]
         if sp[k] != "-1" and any(big_suffix(x) for x in re.split(r"[,\[\]-]", arg) if x) or big_suffix(arg):
             return w[0] + "-miss:suffix>2^25"
+        if w[0] == "delete" and ans[k].isdigit() and sp[k].isdigit() and int(ans[k]) < int(sp[k]):
+            return "delete-leaves-occurrences"       # fewer positions removed than the listed names occupy
         return w[0] + "-mismatch"
     if w[0] in ("uniq", "sort"):
         if sp[k] == "INADMISSIBLE" and k + 1 < len(ans) and k > 0 and ops[k - 1].startswith("hosts"):
